@@ -33,7 +33,42 @@ from ..mailbox import MailboxDataInterface, MailboxSetInterface
 __all__ = ['Maildir', 'Message', 'MailboxData', 'MailboxSet']
 
 
+class RawMaildirMessage(MaildirMessage):
+    """A maildir message whose content is stored byte for byte, instead of
+    being parsed and generated again by the :mod:`email` package (which
+    rewrites line endings and cannot write some 8-bit content at all).
+
+    Args:
+        raw: The message content.
+
+    """
+
+    def __init__(self, raw: bytes) -> None:
+        super().__init__()
+        self.raw: Final = raw
+
+
 class Maildir(_Maildir):
+
+    def _dump_message(self, message: Any, target: Any,
+                      mangle_from_: bool = False) -> None:
+        if isinstance(message, RawMaildirMessage):
+            target.write(message.raw)
+        else:
+            super()._dump_message(  # type: ignore
+                message, target, mangle_from_)
+
+    def get_raw_message(self, key: str) -> RawMaildirMessage:
+        """Like :meth:`~mailbox.Maildir.get_message` but the message
+        content is kept as the bytes in the file.
+
+        """
+        msg = RawMaildirMessage(self.get_bytes(key))
+        meta = self.get_message_metadata(key)
+        msg.set_subdir(meta.get_subdir())
+        msg.set_info(meta.get_info())
+        msg.set_date(meta.get_date())
+        return msg
 
     @property
     def _path_new(self) -> str:
@@ -151,11 +186,11 @@ class Message(BaseMessage):
                 or requirement.has_none(FetchRequirement.CONTENT):
             return LoadedMessage(self, requirement, None)
         try:
-            maildir_msg = self._maildir.get_message(self._key)
+            raw = self._maildir.get_bytes(self._key)
         except (KeyError, FileNotFoundError):
             return LoadedMessage(self, requirement, None)
         else:
-            content = MessageContent.parse(bytes(maildir_msg))
+            content = MessageContent.parse(raw)
             return LoadedMessage(self, requirement, content)
 
     @classmethod
@@ -170,7 +205,7 @@ class Message(BaseMessage):
                    maildir_flags: MaildirFlags) -> MaildirMessage:
         flag_str = maildir_flags.to_maildir(append_msg.flag_set)
         when = append_msg.when or datetime.now()
-        maildir_msg = MaildirMessage(append_msg.literal)
+        maildir_msg = RawMaildirMessage(append_msg.literal)
         maildir_msg.set_flags(flag_str)
         maildir_msg.set_subdir('new' if recent else 'cur')
         maildir_msg.set_date(when.timestamp())
@@ -296,7 +331,7 @@ class MailboxData(MailboxDataInterface[Message]):
             record, _ = await self._get_maildir_msg(uid)
             async with self.messages_lock.read_lock():
                 # the metadata-only message has no content: read the file
-                copy_msg = self._maildir.get_message(record.key)
+                copy_msg = self._maildir.get_raw_message(record.key)
         except (KeyError, FileNotFoundError):
             return None
         copy_msg.set_subdir('new' if recent else 'cur')
